@@ -821,6 +821,8 @@ pub fn run_check(a: &CheckArgs) -> i32 {
         "plans": st.plans,
         "distinct_plans": st.distinct.len(),
         "distinct_nontrivial": st.nontrivial.len(),
+        "distinct_schedules_executed": st.schedules.len(),
+        "distinct_schedules_measure": "number of distinct hashes of what actually happened at the seam: for reader scenarios the recorded trace (caller op, refill call index, position, action data/eof/eintr/pending/error, length) of each streamed run; for the pipe scenario the executor's sequence of task picks together with the number of write and refill calls; for the serde scenario (document, cut set, number of source calls)",
         "rule": spec.rule,
         "samples": samples,
         "exhaustive": false,
